@@ -339,6 +339,19 @@ def call(inst, cfg, kktsolver_obj=None):
     kkt = cfg.get('kkt')
     if kkt == 'ref':
         kkt = kktsolver_obj if kktsolver_obj is not None else ref_kkt(inst)
+    # how the option set reaches the solver: per call (options=..., the default) or through the global solvers.options with
+    # no options= keyword at all (cfg['via'] == 'global'); cfg['prelude'] = option set of a call made immediately before
+    # through the same entry point with per-call options (its result is discarded): the judged call must not inherit it
+    solvers.options.clear()
+    if cfg.get('prelude') is not None:
+        call(inst, dict(cfg, prelude=None, via=None, opts=cfg['prelude']))
+        if cfg.get('via') != 'global':
+            solvers.options.clear()          # (a leak into the globals is then only visible to the 'global' route)
+    okw = {'options': opts}
+    if cfg.get('via') == 'global':
+        for k_, v_ in opts.items():
+            solvers.options.setdefault(k_, v_)   # what a leaking prelude left behind stays in place
+        okw = {}
     ps, ds = starts(inst, cfg)
     d = a['dims']
     entry = cfg.get('entry', 'conelp')
@@ -352,10 +365,10 @@ def call(inst, cfg, kktsolver_obj=None):
     try:
         if entry == 'conelp':
             sol = solvers.conelp(a['c'], a['G'], a['h'], d, a['A'], a['b'], primalstart=ps, dualstart=ds,
-                                 kktsolver=kkt, options=opts)
+                                 kktsolver=kkt, **okw)
         elif entry == 'lp':
             sol = solvers.lp(a['c'], a['G'], a['h'], a['A'], a['b'], kktsolver=kkt, primalstart=ps, dualstart=ds,
-                             options=opts, **kw)
+                             **okw, **kw)
         elif entry in ('socp', 'sdp'):
             ml = d['l']
             G, h = a['G'], a['h']
@@ -396,10 +409,10 @@ def call(inst, cfg, kktsolver_obj=None):
                 dss[key] = lst
             if entry == 'socp':
                 sol = solvers.socp(a['c'], Gl, hl, blocksG, blocksh, a['A'], a['b'], kktsolver=kkt,
-                                   primalstart=pss, dualstart=dss, options=opts, **kw)
+                                   primalstart=pss, dualstart=dss, **okw, **kw)
             else:
                 sol = solvers.sdp(a['c'], Gl, hl, blocksG, blocksh, a['A'], a['b'], kktsolver=kkt,
-                                  primalstart=pss, dualstart=dss, options=opts, **kw)
+                                  primalstart=pss, dualstart=dss, **okw, **kw)
         else:
             raise AssertionError(entry)
     except Exception as e:
